@@ -2235,31 +2235,24 @@ func (e *CoreExtension) functionParent(args ...interface{}) (interface{}, error)
 		LogDebug("Blocks in context: %v", getMapKeys(ctx.blocks))
 		LogDebug("Parent blocks in context: %v", getMapKeys(ctx.parentBlocks))
 
-		// Check for parent content in the parentBlocks map
-		parentContent, ok := ctx.parentBlocks[blockName]
-		if !ok || len(parentContent) == 0 {
+		// The parent content is the next definition of this block up the
+		// extends chain from the one that is being rendered
+		defs := ctx.blockChain[blockName]
+		level := ctx.blockLevel + 1
+		if level >= len(defs) {
 			return "", fmt.Errorf("no parent block content found for block '%s'", blockName)
 		}
+		parentContent := defs[level]
 
-		// For the simplest possible solution, render the parent content directly
-		// This is the most direct way to avoid recursion issues
+		// Render it with the same context (same variables); the level makes a
+		// parent() call inside the parent content continue up the chain
 		var result bytes.Buffer
+		previousLevel := ctx.blockLevel
+		ctx.blockLevel = level
+		defer func() { ctx.blockLevel = previousLevel }()
 
-		// Create a clean context without parent() function to prevent recursion
-		cleanCtx := NewRenderContext(ctx.env, ctx.context, ctx.engine)
-		defer cleanCtx.Release()
-
-		// Copy all blocks and variables
-		for name, content := range ctx.blocks {
-			cleanCtx.blocks[name] = content
-		}
-
-		// The key here is to NOT set currentBlock - this breaks the recursion chain
-		cleanCtx.currentBlock = nil
-
-		// Render each node with the clean context
 		for _, node := range parentContent {
-			if err := node.Render(&result, cleanCtx); err != nil {
+			if err := node.Render(&result, ctx); err != nil {
 				return nil, err
 			}
 		}
